@@ -228,6 +228,7 @@ pub fn new_leaf(parent: Option<NodeId>, idx: usize, flavor: Flavor, l: &crate::s
                 pos: 0,
                 always: l.always,
                 hint: l.hint,
+                dropwake: l.dropwake,
             },
         )
     })
